@@ -60,7 +60,7 @@ type ScriptGen struct {
 	MaxDepth int
 	MaxLen   int
 	Prefix   string // prefix of generated command / label names (keeps scripts of one program distinct)
-	UseSwitch, UseGoto, UseAuto, UseCompound, AfterBreak, UseArgs, UseText, UsePory, UseScope bool
+	UseSwitch, UseGoto, UseAuto, UseCompound, AfterBreak, UseArgs, UseText, UsePory, UseScope, AutoText bool
 	Sw       map[string]string
 	Texts    []string // pool of inline text contents
 }
@@ -110,7 +110,13 @@ func (g *ScriptGen) leaf() *Leaf {
 		}
 	default:
 		l.Kind = "autovar"
-		switch g.R.N(3) {
+		k3 := g.R.N(3)
+		if g.AutoText && g.R.P(50) {
+			k3 = 3
+		}
+		switch k3 {
+		case 3:
+			l.Pre = []string{"checkitem", "(", g.textLit(), ",", "1", ")"}
 		case 0:
 			l.Pre = []string{"checkitem", "(", fmt.Sprintf("ITEM_%d", g.R.N(3)), ")"}
 		case 1:
